@@ -104,13 +104,21 @@ CasesC03 ==
                     <<Null, Chains(<< <<"a.b">> >>)>>,
                     <<S("nope"), Fails>>, <<S("z.*"), Fails>>, <<True, Fails>>,
                     <<L(<<S("c"), I("1")>>), Fails>>,
+                    <<L(<<S("c"), S("nope")>>), Fails>>, <<L(<<S("nope"), S("c")>>), Fails>>,
+                    <<L(<<S("c"), S("z.*")>>), Fails>>, <<L(<<S("c.*"), S("nope")>>), Fails>>,
                     <<I("7"), Chains(<< <<"a", "a.b">> >>)>>,
                     <<EmptyList, Chains(<< <<"a", "a.b">> >>)>> } }
   (* $parent in the second document of a two-document file; conflicting directives *)
   \cup { Case(FsOf(<<Plain("a", 0, 1), Plain("c", 0, 2),
                      <<"a.b", "yaml", <<LayerDoc("a.b", <<>>), LayerDoc("a.b#2", [pk \in {"$parent"} |-> pv[1]])>> >> >>, <<>>),
               <<"a.b.yaml">>, FALSE, "/", "seconddoc", pv[2])
-         : pv \in { <<S("c"), Chains(<< <<"c", "a.b", "a.b#2">> >>)>>, <<False, Chains(<< <<"a.b">>, <<"a.b#2">> >>)>> } }
+         : pv \in { <<S("c"), Chains(<< <<"c", "a.b", "a.b#2">> >>)>>, <<False, Chains(<< <<"a.b">>, <<"a.b#2">> >>)>>,
+                    <<S("nope"), Fails>> } }
+  (* $parent in both documents of a file, one of them missing *)
+  \cup { Case(FsOf(<<Plain("a", 0, 1), Plain("c", 0, 2),
+                     <<"a.b", "yaml", <<LayerDoc("a.b", [pk \in {"$parent"} |-> S(pv[1])]), LayerDoc("a.b#2", [pk \in {"$parent"} |-> S(pv[2])])>> >> >>, <<>>),
+              <<"a.b.yaml">>, FALSE, "/", "twodirectives", pv[3])
+         : pv \in { <<"c", "nope", Fails>>, <<"nope", "c", Fails>>, <<"c", "a", Chains(<< <<"c", "a.b", "a.b#2">>, <<"a", "a.b", "a.b#2">> >>)>> } }
   \cup { Case(FsOf(<<Plain("a", 0, 1), Plain("c", 0, 2),
                      <<"a.b", "yaml", <<LayerDoc("a.b", [pk \in {"$parent"} |-> False]), LayerDoc("a.b#2", [pk \in {"$parent"} |-> S("c")])>> >> >>, <<>>),
               <<"a.b.yaml">>, FALSE, "/", "conflict", Fails) : dummy \in {1} }
